@@ -11,18 +11,29 @@ use crate::{Namespace, Scope};
 
 impl Parser for Namespace {
     fn parse(input: &str) -> IResult<&str, Namespace> {
+        let (input, scope) = preceded(
+            tag("namespace"),
+            alt((
+                preceded(blank, Scope::parse),
+                map(tag("*"), |s: &str| Scope(s.into())),
+            )),
+        )(input)?;
+        // "*" delimits itself; every other scope is a word and needs a blank after it
+        let (input, _) = if scope.0 == "*" {
+            opt(blank)(input)?
+        } else {
+            map(blank, Some)(input)?
+        };
         map(
             tuple((
-                tag("namespace"),
-                preceded(blank, Scope::parse),
-                preceded(blank, Path::parse),
+                Path::parse,
                 opt(blank),
                 opt(Annotations::parse),
                 opt(blank),
                 opt(list_separator),
             )),
-            |(_, scope, name, _, annotations, _, _)| Namespace {
-                scope,
+            move |(name, _, annotations, _, _)| Namespace {
+                scope: scope.clone(),
                 name,
                 annotations,
             },
